@@ -458,6 +458,13 @@ func famHash(dir string, seed int64, tier string) {
 		{open: sb.KindMap, close: sb.KindMapEnd, items: []*gval{tk(sb.KindInt, 1), arr(), tk(sb.KindInt, 2), named("n", arr(arr()))}},
 		{open: sb.KindTuple, close: sb.KindTupleEnd, items: []*gval{arr(), arr()}},
 	}
+	// the same text under different kinds in one tree (a digest remembered per text must not cross kinds)
+	for _, txt := range []string{"7", "1234567890123456", "123456789012345678901234567890", ""} {
+		shapes = append(shapes,
+			arr(tk(sb.KindString, txt), tk(sb.KindLiteral, txt)),
+			obj(tk(sb.KindString, "Code"), tk(sb.KindString, txt), tk(sb.KindString, "Count"), tk(sb.KindLiteral, txt)),
+			arr(tk(sb.KindLiteral, txt), named(txt+"x", tk(sb.KindString, txt)), tk(sb.KindString, txt), tk(sb.KindBytes, []byte(txt)), tk(sb.KindRef, []byte(txt+"0123456789abcdef")), tk(sb.KindLiteral, txt)))
+	}
 	nSmallShapes := len(shapes)
 	// payload lengths around the sizes of pooled copy buffers (32 KiB and its multiples), for every kind that
 	// carries a string or a blob; compressible, so that the model evaluates them too
